@@ -10,7 +10,7 @@ import vlib
 
 PROPS = ["C06", "C07"]
 DRIVERS = ["keyed"]
-C06 = ["SetKeyResult", "RemoveKeyResult", "SyncKeysResult", "GetKeyResult", "GetKeysResult",
+C06 = ["WantedKeyLost", "SetKeyResult", "RemoveKeyResult", "SyncKeysResult", "GetKeyResult", "GetKeysResult",
        "GetKeysDataResult", "AddKeyRefResult", "RcRemoveKeyResult"]
 C07 = ["Overlap", "LiveAfterRemove", "LiveAfterClear", "StartedAfterRemove", "StartedAfterClear", "RetryLost"]
 PROPERTY_OF = dict([(n, "C06") for n in C06] + [(n, "C07") for n in C07])
@@ -30,7 +30,7 @@ RULES_M1 = [
 RULES_SEQ = [(r"Do\((\d+)\)", "op:{1}"), (r".*", None)]
 
 SCEN = {
-    "C06": {"quick": ["ks_q1", "ks_q2", "ks_q3", "ks_q4"], "thorough": ["ks_q1", "ks_q2", "ks_q3", "ks_q4", "ks_t1", "ks_t2", "ks_t3"]},
+    "C06": {"quick": ["ks_q1", "ks_q2", "ks_q3", "ks_q4", "km_q6"], "thorough": ["ks_q1", "ks_q2", "ks_q3", "ks_q4", "km_q6", "ks_t1", "ks_t2", "ks_t3"]},
     "C07": {"quick": ["km_q1", "km_q2", "km_q3", "km_q4", "km_q5"], "thorough": ["km_q1", "km_q2", "km_q3", "km_q4", "km_q5", "km_t1", "km_t2", "km_t3"]},
 }
 OPKEYS = ["op", "k", "s", "ks", "r", "ref", "c", "d", "out"]
@@ -138,7 +138,11 @@ def fam(prop):
                 n_random={"quick": 5000, "thorough": 10000},
                 # thorough: further seeded random executions in separate harness runs (keeps every trace file,
                 # which TLC loads as a whole, below ~60 MB)
-                modes={"thorough": [("r%d" % i, ("seq" if seq else "m1") + ",v%d" % i, 10000) for i in range(1, 9)]},
+                # C06 also judges its order-insensitive clause (a re-requested key stays present) on controlled
+                # interleavings where timer callbacks are separate steps (mode m1)
+                modes={"quick": ([("m1x", "m1", 3000)] if seq else []),
+                       "thorough": [("r%d" % i, ("seq" if seq else "m1") + ",v%d" % i, 10000) for i in range(1, 9)]
+                                   + ([("m1x%d" % i, "m1,v%d" % i, 10000) for i in range(1, 5)] if seq else [])},
                 x_specs=["keyed/Keyed.tla"], p_monitor="keyed/KeyedP.tla",
                 assumptions=["KeyedP encodes the statement (interpretation notes at the top of specs/keyed/KeyedP.tla)",
                              "X models the code as it is at the pinned commit: " + ", ".join("%s=%s" % kv for kv in sorted(FIXES.items()))])
